@@ -50,7 +50,12 @@ impl LaxFunctor<O, A, O, A> for LaxTableFunctor {
         self.t.obj(*o).clone().into_iter()
     }
     fn map_operation(&self, a: &A, source: &[O], target: &[O]) -> LaxOH {
-        lax::OpenHypergraph::from_strict(sv::oh(self.t.op(*a, source, target)))
+        // images are lax diagrams: when the table gives a lax presentation (possibly with pending
+        // unifications of its own) that one is returned, otherwise the strict image converted
+        match self.t.lax_op(*a, source, target) {
+            Some(l) => lax_in(l),
+            None => lax::OpenHypergraph::from_strict(sv::oh(self.t.op(*a, source, target))),
+        }
     }
     fn map_arrow(&self, f: &LaxOH) -> LaxOH {
         lax::functor::dyn_functor::define_map_arrow(self, f)
